@@ -85,6 +85,7 @@ type vTarget struct {
 	ctype     string
 	gzipped   bool
 	gzipFails bool
+	gzipReleased bool // the pooled decompressor was handed back (PutGzipReader)
 	body      *vBody
 	requests  int
 	lastURL   string
@@ -122,8 +123,14 @@ func vGetGzipReader(r io.Reader) (*gzip.Reader, error) {
 	}
 	return &gzip.Reader{}, nil
 }
-func vPutGzipReader(z *gzip.Reader)                    {}
-func vGzipRead(z *gzip.Reader, p []byte) (int, error) { return vCur.body.Read(p) }
+func vPutGzipReader(z *gzip.Reader) { vCur.gzipReleased = true }
+func vGzipRead(z *gzip.Reader, p []byte) (int, error) {
+	// the decompressor comes from a pool shared by all scrapes: once it is handed back another
+	// scrape may own it, so no byte of this response may be read through it any more (a lemma
+	// standing in for overlapping scrapes, which are not explored)
+	zzv.AssertSym("C12.pooled.gzip.reader.not.used.after.release", !vCur.gzipReleased)
+	return vCur.body.Read(p)
+}
 
 // vParseStream is the contract model of VictoriaMetrics' ParseStream (v1.71.0): read until the
 // reader reports an error; an EOF-like error = success and the callback gets the rows of
